@@ -222,3 +222,14 @@ func (r *Run) Lib(f func()) {
 		r.Skip("library panic: " + lp.Class + " in " + lp.Frame)
 	}
 }
+
+// errTag is what the event log records of an error: whether there was one.
+// The text of go-cose's validation errors depends on Go's map iteration
+// order when several rules are broken at once (DESIGN 1.2), so it never
+// enters the log, a shape or a signature.
+func errTag(err error) string {
+	if err == nil {
+		return "ok"
+	}
+	return "error"
+}
